@@ -1,5 +1,5 @@
 From Coq Require Import Reals ZArith List String.
-From OV Require Import Ops RInst XR Gen.RealRays Gen.Apertures Model.Trace Lemmas.L_Intensity.
+From OV Require Import Ops RInst XR Gen.RealRays Gen.Apertures Model.Trace Lemmas.L_Intensity Lemmas.L_Intensity2.
 Local Open Scope R_scope.
 Import ListNotations.
 
@@ -74,3 +74,95 @@ Theorem C16_clipped_stays_zero :
 Proof. exact clipped_stays_zero. Qed.
 Print Assumptions C16_clipped_stays_zero.
 
+
+(** exact per-surface factor: which rays are clipped is determined by the landing point *)
+Theorem C16_surface_intensity_exact :
+  forall (s : surf ROps) (r r' : ray ROps),
+       trace_surface s r = Some r' ->
+       exists t : R, distance (s_shape s) (localize s r) = Some t /\ ri r' = (ri r * surf_factor s r t)%R.
+Proof. exact surface_intensity_exact. Qed.
+Print Assumptions C16_surface_intensity_exact.
+
+Theorem C16_surf_factor_def :
+  forall (s : surf ROps) (r : ray ROps) (t : R),
+       surf_factor s r t =
+       ((if match s_aper s with
+            | Some (rmax, rmin) =>
+                (Rltb (rmax * rmax) (hit_x s r t * hit_x s r t + hit_y s r t * hit_y s r t)
+                 || Rltb (hit_x s r t * hit_x s r t + hit_y s r t * hit_y s r t) (rmin * rmin))%bool
+            | None => false
+            end
+         then 0
+         else exp (- (4 * PI * s_k1 s / rw r) * t * 1000)) *
+        match s_coat s with
+        | Some (tr, rf) => if s_refl s then rf else tr
+        | None => 1
+        end)%R.
+Proof. intros s r t. unfold surf_factor, clipped_at, outside, coat_factor, absorb. destruct (s_aper s) as [[a b]|]; reflexivity. Qed.
+Print Assumptions C16_surf_factor_def.
+
+Theorem C16_lossless_surface_keeps_intensity :
+  forall (s : surf ROps) (r r' : ray ROps),
+       trace_surface s r = Some r' -> s_aper s = None -> s_coat s = None -> s_k1 s = 0%R -> ri r' = ri r.
+Proof. exact lossless_surface_keeps_intensity. Qed.
+Print Assumptions C16_lossless_surface_keeps_intensity.
+
+Theorem C16_unclipped_transparent_surface :
+  forall (s : surf ROps) (r r' : ray ROps) (t : R),
+       trace_surface s r = Some r' ->
+       distance (s_shape s) (localize s r) = Some t ->
+       clipped_at s r t = false -> s_k1 s = 0%R -> ri r' = (ri r * coat_factor s)%R.
+Proof. exact unclipped_transparent_surface. Qed.
+Print Assumptions C16_unclipped_transparent_surface.
+
+Theorem C16_outside_aperture_zero_onward :
+  forall (s : surf ROps) (ss : list (surf ROps)) (r r' : ray ROps) (l : list (ray ROps)) (t rmax rmin : R),
+       trace (s :: ss) r = Some (r' :: l) ->
+       distance (s_shape s) (localize s r) = Some t ->
+       s_aper s = Some (rmax, rmin) ->
+       (rmax * rmax < hit_x s r t * hit_x s r t + hit_y s r t * hit_y s r t \/
+        hit_x s r t * hit_x s r t + hit_y s r t * hit_y s r t < rmin * rmin)%R ->
+       Forall (fun q : ray ROps => ri q = 0%R) (r' :: l).
+Proof. exact outside_aperture_zero_onward. Qed.
+Print Assumptions C16_outside_aperture_zero_onward.
+
+Theorem C16_inside_aperture_not_clipped :
+  forall (s : surf ROps) (r : ray ROps) (t rmax rmin : R),
+       s_aper s = Some (rmax, rmin) ->
+       (rmin * rmin <= hit_x s r t * hit_x s r t + hit_y s r t * hit_y s r t <= rmax * rmax)%R ->
+       clipped_at s r t = false.
+Proof. exact inside_aperture_not_clipped. Qed.
+Print Assumptions C16_inside_aperture_not_clipped.
+
+(** closed form for a path of ANY length: running products of the per-surface factors *)
+Theorem C16_intensity_path_product :
+  forall (ss : list (surf ROps)) (r : ray ROps) (l : list (ray ROps)),
+       trace ss r = Some l -> map ri l = running (ri r) (factors ss r).
+Proof. exact intensity_path_product. Qed.
+Print Assumptions C16_intensity_path_product.
+
+Theorem C16_final_intensity_is_product :
+  forall (ss : list (surf ROps)) (r : ray ROps) (l : list (ray ROps)),
+       trace ss r = Some l ->
+       last (map ri l) (ri r) = (ri r * fold_right Rmult 1 (factors ss r))%R.
+Proof. exact final_intensity_is_product. Qed.
+Print Assumptions C16_final_intensity_is_product.
+
+Theorem C16_factors_one_per_surface :
+  forall (ss : list (surf ROps)) (r : ray ROps) (l : list (ray ROps)),
+       trace ss r = Some l -> List.length (factors ss r) = List.length ss.
+Proof. exact factors_length. Qed.
+Print Assumptions C16_factors_one_per_surface.
+
+Theorem C16_lossless_path_keeps_intensity :
+  forall (ss : list (surf ROps)) (r : ray ROps) (l : list (ray ROps)),
+       trace ss r = Some l ->
+       Forall (fun s : surf ROps => s_aper s = None /\ s_coat s = None /\ s_k1 s = 0%R) ss ->
+       Forall (fun q : ray ROps => ri q = ri r) l.
+Proof. exact lossless_path_keeps_intensity. Qed.
+Print Assumptions C16_lossless_path_keeps_intensity.
+
+(** non-vacuity: a coated plane with an aperture of radius 2; a ray landing at r = 1 keeps 0.9, one at r = 3 gets 0 *)
+Theorem C16_factor_examples : surf_factor s_ex r_in 1 = 0.9%R /\ surf_factor s_ex r_out 1 = 0%R.
+Proof. exact (conj factor_example_unclipped factor_example_clipped). Qed.
+Print Assumptions C16_factor_examples.
